@@ -371,6 +371,11 @@ def gen(ctx):
             yield long_monitor_case(rng, "PaVeBa", 8190, 8)
         for k in range(len(MONITOR_FIXED)):
             yield monitor_case(rng, fixed_index=k)
+        # more designs than any internal prediction block (1100 > 1024) refreshed by ONE design_space.update call:
+        # every region must still be centred on the mean of its OWN observations (the bulk is discarded in round 1)
+        yield {"kind": "monitor", "alg": "Auer", "W": None, "epsilon": 0.25, "delta": 0.1, "noise_var": 1.0 / 64,
+               "Y": sparse_dataset(1100, [3, 8], 11, bulk=-40.0, top=(4.0, 4.0), gap=2.0, iso=(-8.0, 12.0)),
+               "seed": 7, "max_rounds": 2, "shape": "large-K"}
     for _ in range(ctx.n(24, 3000)):
         yield ctor_case(rng)
     for _ in range(ctx.n(3, 300)):
